@@ -62,6 +62,40 @@ impl Fin for Imp {
 impl Other for Imp { fn other(&self) -> u64 { 5 } }
 cglue_impl_group!(Imp, FinGroup, { Other });
 
+/// consuming calls whose result wraps a returned object: on the failing side nothing is returned
+/// that could keep the context alive, so only the caller's guard does
+#[cglue_trait]
+pub trait FinW {
+    #[wrap_with_obj(Other)]
+    type Owned: Other + 'static;
+    fn fin_wrapped(self, fail: bool) -> Result<Self::Owned, u8>;
+    #[int_result]
+    fn fin_wrapped_int(self, fail: bool) -> Result<Self::Owned, GErr>;
+    fn fin_direct(self) -> Self::Owned;
+}
+impl FinW for Imp {
+    type Owned = Imp;
+    fn fin_wrapped(self, fail: bool) -> Result<Imp, u8> { if fail { Err(3) } else { Ok(self) } }
+    fn fin_wrapped_int(self, fail: bool) -> Result<Imp, GErr> { if fail { Err(GErr(9)) } else { Ok(self) } }
+    fn fin_direct(self) -> Imp { self }
+}
+
+/// a trait with a lifetime parameter that lends a wrapped child bound to that lifetime
+#[cglue_trait]
+pub trait Lender<'a> {
+    #[wrap_with_obj(Other)]
+    type Lent: Other + 'a;
+    fn lend(&'a mut self) -> Self::Lent;
+    fn lender_id(&self) -> u64;
+}
+pub struct LentImp<'a>(&'a mut Imp);
+impl<'a> Other for LentImp<'a> { fn other(&self) -> u64 { self.0 .0 + 40 } }
+impl<'a> Lender<'a> for Imp {
+    type Lent = LentImp<'a>;
+    fn lend(&'a mut self) -> LentImp<'a> { LentImp(self) }
+    fn lender_id(&self) -> u64 { self.0 }
+}
+
 /// an instance whose destructor needs the context (think: code that lives in the library the
 /// context keeps loaded): its Drop records whether the context was still alive
 static DEP_DROPS: Mutex<Vec<(u64, usize)>> = Mutex::new(Vec::new());
@@ -161,6 +195,42 @@ fn main() {
     case!("group into+CArc ctx: fin_res Err", |l: Arc<Lib>| group_obj!((Imp(1), CArc::<Lib>::from(l)) as FinGroup), |o: FinGroupCtxBox<CArc<Lib>>| { let c = into!(o impl Other).unwrap(); let _ = c.fin_res(true); });
     // sanity of the harness itself: dropping (not consuming) releases the context in our frame
     case!("object+CArc ctx: plain drop", |l: Arc<Lib>| trait_obj!((Imp(1), CArc::<Lib>::from(l)) as Fin), |o: FinCtxBox<CArc<Lib>>| { let _ = o.peek(); drop(o); });
+    // result-wrapped returns of consuming calls: failing side (nothing returned) and successful side
+    case!("object+CArc ctx: fin_wrapped Err", |l: Arc<Lib>| trait_obj!((Imp(1), CArc::<Lib>::from(l)) as FinW), |o: FinWCtxBox<CArc<Lib>>| { let r = o.fin_wrapped(true); assert!(matches!(r, Err(3))); });
+    case!("object+CArc ctx: fin_wrapped_int Err", |l: Arc<Lib>| trait_obj!((Imp(1), CArc::<Lib>::from(l)) as FinW), |o: FinWCtxBox<CArc<Lib>>| { let r = o.fin_wrapped_int(true); assert!(r.is_err()); });
+    case!("object+plain ctx: fin_wrapped Err", |l: Arc<Lib>| trait_obj!((Imp(1), PlainCtx(l)) as FinW), |o: FinWCtxBox<PlainCtx>| { let r = o.fin_wrapped(true); assert!(r.is_err()); });
+    case!("object+CArc ctx: fin_wrapped Ok, child dropped later", |l: Arc<Lib>| trait_obj!((Imp(1), CArc::<Lib>::from(l)) as FinW), |o: FinWCtxBox<CArc<Lib>>| { let r = o.fin_wrapped(false).ok().expect("Ok"); let _ = r.other(); drop(r); });
+    case!("object+CArc ctx: fin_direct, child dropped later", |l: Arc<Lib>| trait_obj!((Imp(1), CArc::<Lib>::from(l)) as FinW), |o: FinWCtxBox<CArc<Lib>>| { let r = o.fin_direct(); let _ = r.other(); drop(r); });
+    // a lent child (associated type bound to the trait's lifetime) holds its own clone of the context while it lives
+    {
+        id += 1;
+        let lib = Arc::new(Lib(id));
+        let weak = Arc::downgrade(&lib);
+        let mut obj = trait_obj!((Imp(5), CArc::<Lib>::from(lib)) as Lender);
+        let c0 = weak.strong_count();
+        {
+            let child = obj.lend();
+            let c1 = weak.strong_count();
+            n += 1;
+            if c1 != c0 + 1 {
+                println!("{{\"k\":\"violation\",\"sig\":\"C07:lent-child-holds-no-context-clone\",\"detail\":\"lifetime-bound lent child: context count {} while the child is alive, {} before (own clone expected)\",\"replay\":\"lend\"}}", c1, c0);
+                viol += 1;
+            }
+            let _ = child.other();
+        }
+        let c2 = weak.strong_count();
+        n += 1;
+        if c2 != c0 {
+            println!("{{\"k\":\"violation\",\"sig\":\"C07:context-count\",\"detail\":\"lifetime-bound lent child dropped: context count {} (was {} before the child existed)\",\"replay\":\"lend\"}}", c2, c0);
+            viol += 1;
+        }
+        drop(obj);
+        n += 1;
+        if weak.strong_count() != 0 {
+            println!("{{\"k\":\"violation\",\"sig\":\"C07:context-not-released\",\"detail\":\"lender dropped, context still has {} references\",\"replay\":\"lend\"}}", weak.strong_count());
+            viol += 1;
+        }
+    }
     // the context must outlive the instance's destructor when the object is its last holder
     macro_rules! dcase {
         ($name:expr, $mk:expr, $call:expr) => {{
